@@ -15,6 +15,7 @@ from types import SimpleNamespace
 from vlib import common
 
 PROP = "C23"
+STALE = "trajectory-interaction-stale"
 HEADER = """From Coq Require Import ZArith List.
 Import ListNotations.
 From EV Require Import Model.Interaction.
@@ -117,8 +118,26 @@ def gen_case(rng, malformed=False):
     slm_end = rng.choice([0, 0, rng.randint(1, T - 1), T // 2, T, T + 5])
     ts = sorted({0, T, slm_end, slm_end - 1, slm_end + 1, rng.randint(0, T), rng.randint(-2, T + 8)})
     shift = rng.choice([0, 0, 1, 3, 10])                            # inputs scaled by 2**-shift (dyadic floats)
+    # further noise trajectories, each with ITS OWN matrix (register noise: same bad_atoms, different positions) and
+    # repetitions; bad-atom patterns equal to / different from the first trajectory's
+    more = []
+    if rng.random() < 0.45:
+        for _ in range(rng.randint(1, 3)):
+            more.append({"traj": [sym(asym)] if traj_kind != "packed2" else [sym(asym), sym(asym)],
+                         "reps": rng.choice([1, 1, 2, 3]),
+                         "bad": [rng.random() < 0.4 for _ in range(n)] if rng.random() < 0.4 else [False] * n})
     return {"n": n, "cutoff": cutoff, "traj_kind": traj_kind, "traj": traj, "user": user, "targets": targets,
-            "slm_end": slm_end, "ts": ts, "shift": shift, "kind": "malformed" if malformed else "valid"}
+            "slm_end": slm_end, "ts": ts, "shift": shift, "kind": "malformed" if malformed else "valid",
+            "reps": rng.choice([1, 1, 1, 2]) if more else 1, "more": more}
+
+
+def case_trajectories(case):
+    """[(matrices, reps, bad atoms)] of the scripted noise trajectories of a stand-in case, and the index of the
+    trajectory each yielded SequenceData must come from"""
+    trajs = [(case["traj"], case.get("reps", 1), [False] * case["n"])]
+    trajs += [(m["traj"], m["reps"], m["bad"]) for m in case.get("more", [])]
+    owner = [i for i, (_, r, _) in enumerate(trajs) for _ in range(r)]
+    return trajs, owner
 
 
 _TEMPLATE = {}
@@ -154,10 +173,19 @@ def impl_run(case):
         tt = tt[0]
     user = None if case["user"] is None else torch.tensor(case["user"], dtype=torch.float64) * s
     tt0, user0 = tt.clone(), None if user is None else user.clone()
-    sample = SimpleNamespace(trajectory=SimpleNamespace(interaction_matrix=_Arr(tt), bad_atoms={i: False for i in ids}),
-                             samples=None, reps=1)
+    trajs, owner = case_trajectories(case)
+    samples, tensors = [], [tt]
+    for k, (mats_k, reps_k, bad_k) in enumerate(trajs):
+        if k:
+            tk = torch.tensor(mats_k, dtype=torch.float64) * s
+            tk = tk[0] if case["traj_kind"] == "plain" else tk
+            tensors.append(tk)
+        samples.append(SimpleNamespace(
+            trajectory=SimpleNamespace(interaction_matrix=_Arr(tensors[k]), bad_atoms=dict(zip(ids, bad_k))),
+            samples=None, reps=reps_k))
+    tensors0 = [t.clone() for t in tensors]
     stub = copy.copy(template_pulserdata())
-    stub.hamiltonian = SimpleNamespace(noisy_samples=[sample])
+    stub.hamiltonian = SimpleNamespace(noisy_samples=samples)
     stub.full_interaction_matrix = user
     stub.interaction_cutoff = case["cutoff"] * s
     stub._sequence = SimpleNamespace(_slm_mask_targets=[ids[i] for i in case["targets"]], register=_Reg(ids))
@@ -171,16 +199,24 @@ def impl_run(case):
     finally:
         pulser_adapter._extract_omega_delta_phi = saved
     sd = sds[0]
-    mats = []
-    for t in case["ts"]:
-        m = sd.interaction_matrix(t * s) / s
-        mats.append([[int(v) if float(v).is_integer() else float(v) for v in row] for row in m.tolist()])
+
+    def mats_of(one):
+        out = []
+        for t in case["ts"]:
+            m = one.interaction_matrix(t * s) / s
+            out.append([[int(v) if float(v).is_integer() else float(v) for v in row] for row in m.tolist()])
+        return out
+
+    all_mats = [mats_of(one) for one in sds]      # one entry per yielded SequenceData
+    mats = all_mats[0]
+    bads = [[bool(b) for b in one.bad_atoms] for one in sds]
     call = sd.interaction_matrix
-    unmutated = bool(torch.equal(tt, tt0)) and (user is None or bool(torch.equal(user, user0)))
+    unmutated = all(bool(torch.equal(a, b)) for a, b in zip(tensors, tensors0)) and \
+        (user is None or bool(torch.equal(user, user0)))
     ptrs = {call.full_matrix.data_ptr(), call.masked_matrix.data_ptr(), tt.data_ptr()} | \
            ({user.data_ptr()} if user is not None else set())
     fresh = len(ptrs) == (4 if user is not None else 3)
-    return {"mats": mats, "unmutated": unmutated, "fresh_storage": fresh}
+    return {"mats": mats, "all_mats": all_mats, "bad_atoms": bads, "unmutated": unmutated, "fresh_storage": fresh}
 
 
 def zmat(m):
@@ -189,11 +225,15 @@ def zmat(m):
 
 def model_expr(case):
     user = "None" if case["user"] is None else f"(Some {zmat(case['user'])})"
-    traj = f"(Plain {zmat(case['traj'][0])})" if case["traj_kind"] == "plain" else \
-        "(Packed [" + "; ".join(zmat(m) for m in case["traj"]) + "])"
+    def tm(mats):
+        return f"(Plain {zmat(mats[0])})" if case["traj_kind"] == "plain" else \
+            "(Packed [" + "; ".join(zmat(m) for m in mats) + "])"
+
+    trajs = "[" + "; ".join(f"({tm(m)}, {r}%nat)" for m, r, _ in case_trajectories(case)[0]) + "]"
     targets = "[" + "; ".join(f"{t}%nat" for t in case["targets"]) + "]"
     ts = "[" + "; ".join(f"({t})" for t in case["ts"]) + "]"
-    return (f"map (fun t => interaction_at {user} {traj} ({case['cutoff']}) {targets} ({case['slm_end']}) t) {ts}")
+    # one list per query time: the matrix of EVERY yielded SequenceData (trajectory k repeated reps_k times, in order)
+    return (f"map (fun t => sequences_at {user} {trajs} ({case['cutoff']}) {targets} ({case['slm_end']}) t) {ts}")
 
 
 def spec_oracle(M, src, cutoff, masked, t, slm_end):
@@ -523,6 +563,165 @@ def run_e2e_xy(ctx, p):
         return False, f"after the mask the excitation does not spread: {occ} (the reference run is not sensitive)"
     return True, ""
 
+# ---------------------------------------------------------------------------------------------------
+# every noise trajectory of real pulser noise models: the matrix of each yielded SequenceData is the prescription
+# applied to THAT trajectory's register / bad atoms
+# NoiseTrajectory fields (pulser 1.9.1) and whether they enter the interaction matrix; an unknown field fails closed
+MATRIX_FIELDS = {"bad_atoms": True, "register": True, "interaction_matrix": True, "doppler_detune": False,
+                 "amp_fluctuations": False, "det_fluctuations": False, "det_phases": False, "dmm_det_fluctuation": False}
+# noise models: one per matrix-relevant field in which only it varies, mixtures, and controls (matrix constant)
+TRAJ_MODELS = {
+    "bad_atoms": dict(state_prep_error=0.4),
+    "register": dict(temperature=50.0, trap_depth=150.0, trap_waist=1.0, disable_doppler=True),
+    "register+bad_atoms": dict(temperature=50.0, trap_depth=150.0, trap_waist=1.0, disable_doppler=True, state_prep_error=0.3),
+    "register+doppler+amplitude": dict(temperature=50.0, trap_depth=150.0, trap_waist=1.0, amp_sigma=0.1),   # ising only
+    "amplitude+detuning": dict(amp_sigma=0.1, detuning_sigma=0.5),                                          # control
+}
+
+
+def gen_traj_case(rng, model=None):
+    model = model or rng.choice(list(TRAJ_MODELS))
+    spec = gen_seq_spec(rng)
+    if "doppler" in model or "detuning" in model:
+        spec["xy"] = False              # pulser: XY does not support doppler / detuning noise
+    n = spec["n"]
+    spec["coords"] = [(6.5 * (i % 3) + rng.uniform(-0.5, 0.5), 6.5 * (i // 3) + rng.uniform(-0.5, 0.5)) for i in range(n)]
+    spec["custom"] = rng.random() < 0.15
+    spec["cutoff"] = rng.choice([0.0, 0.0, 0.5, 2.0, 30.0])
+    return {"kind": "trajectories", "spec": spec, "model": model, "n_traj": rng.choice([2, 3, 4, 6]),
+            "seed": rng.randrange(2 ** 31)}
+
+
+def check_trajectories(ctx, tc, stats=None):
+    """real PulserData with n_trajectories > 1: every yielded SequenceData vs its own NoiseTrajectory"""
+    import dataclasses
+    import warnings
+    import numpy as np
+    import torch
+    import pulser
+    from pulser.backend import EmulationConfig, BitStrings
+    from emu_base.pulser_adapter import PulserData
+
+    spec = tc["spec"]
+    seq = build_sequence(spec)
+    kw = {"interaction_matrix": custom_matrix(spec)} if spec["custom"] else {}
+    np.random.seed(tc["seed"])
+    torch.manual_seed(tc["seed"])
+    with warnings.catch_warnings():
+        warnings.simplefilter("ignore")
+        cfg = EmulationConfig(observables=[BitStrings(evaluation_times=[1.0])], interaction_cutoff=spec["cutoff"],
+                              noise_model=pulser.NoiseModel(**TRAJ_MODELS[tc["model"]]), n_trajectories=tc["n_traj"], **kw)
+        try:
+            pd = PulserData(sequence=seq, config=cfg, dt=spec["dt"])
+        except AssertionError:
+            if spec["custom"]:
+                return None      # custom-matrix-rejected: reported by run_pulserdata
+            raise
+        # the trajectories pulser sampled for this PulserData (HamiltonianData.noise_trajectories: what noisy_samples walks)
+        per_traj = [tr for tr, reps in pd.hamiltonian.noise_trajectories for _ in range(reps)]
+        sds = list(pd.get_sequences())
+    meta = {"case": tc, "kind": "trajectories"}
+    if len(sds) != len(per_traj) or len(sds) != tc["n_traj"]:
+        ctx.violation(f"get_sequences yields {len(sds)} SequenceData for {len(per_traj)} noise trajectories "
+                      f"(n_trajectories={tc['n_traj']}, noise model {tc['model']})", dict(meta, finding_key="trajectory-count"))
+        return None
+    n = spec["n"]
+    smt = list(seq._slm_mask_time)
+    slm_end = float(smt[1]) if len(smt) > 1 else 0.0
+    T = float(pd.target_times[-1])
+    masked = set(spec["targets"])
+    times = sorted({0.0, T, slm_end, max(slm_end - 0.5, 0.0), min(slm_end + 0.5, T), 0.5 * T})
+    c6 = float(pulser.MockDevice.interaction_coeff)
+
+    def source(tr):
+        if spec["custom"]:
+            return torch.tensor(custom_matrix(spec), dtype=torch.float64).tolist()
+        m = tr.interaction_matrix.as_tensor()
+        return (m[0] if m.dim() == 3 else m).tolist()
+
+    sources = [source(tr) for tr in per_traj]
+    distinct = len({json.dumps(x) for x in sources})
+    if stats is not None:
+        st = stats.setdefault(tc["model"], {"cases": 0, "trajectories": 0, "cases_with_distinct_matrices": 0})
+        st["cases"] += 1
+        st["trajectories"] += len(sds)
+        st["cases_with_distinct_matrices"] += int(distinct > 1 and not spec["custom"])
+    for k, (tr, sd, srcl) in enumerate(zip(per_traj, sds, sources)):
+        if [bool(b) for b in sd.bad_atoms] != [bool(b) for b in tr.bad_atoms.values()]:
+            ctx.violation(f"SequenceData #{k}: bad_atoms {list(sd.bad_atoms)} are not those of its noise trajectory "
+                          f"{list(tr.bad_atoms.values())} (noise model {tc['model']})", dict(meta, finding_key=STALE))
+            return False
+        for t in times:
+            M = sd.interaction_matrix(t).tolist()
+            bad = spec_oracle(M, srcl, spec["cutoff"], masked, t, slm_end)
+            if bad:
+                other = [j for j in range(len(sources)) if sources[j] != srcl and
+                         spec_oracle(M, sources[j], spec["cutoff"], masked, t, slm_end) is None]
+                if other:
+                    ctx.violation(f"SequenceData #{k} of {len(sds)} (noise model `{tc['model']}`, n_trajectories={tc['n_traj']}) "
+                                  f"carries the interaction matrix of noise trajectory {other[0]}, not the one of its own "
+                                  f"trajectory's register/bad atoms: {bad}", dict(meta, finding_key=STALE, trajectory=k))
+                else:
+                    ctx.violation(f"SequenceData #{k} (noise model `{tc['model']}`): {bad}",
+                                  dict(meta, finding_key="matrix-spec", trajectory=k))
+                return False
+        if not spec["xy"] and not spec["custom"]:
+            # independent of pulser's matrix: C6/r^6 from the positions of THIS trajectory's (noisy, 3D) register, rows
+            # and columns of its bad atoms zero; 1e-5: pulser's torch.cdist is only ~1e-7 accurate (see run_pulserdata)
+            pos = [torch.as_tensor(p.as_tensor() if hasattr(p, "as_tensor") else p, dtype=torch.float64).flatten()
+                   for p in tr.register.qubits.values()]
+            pos = [torch.cat([p, torch.zeros(3 - len(p), dtype=torch.float64)]) for p in pos]
+            badl = [bool(b) for b in tr.bad_atoms.values()]
+            M = sd.interaction_matrix(T).tolist()
+            for i in range(n):
+                for j in range(n):
+                    if i == j:
+                        continue
+                    want = 0.0 if (badl[i] or badl[j]) else c6 / float(torch.linalg.norm(pos[i] - pos[j])) ** 6
+                    if abs(abs(want) - spec["cutoff"]) <= 1e-4 * spec["cutoff"]:
+                        continue                       # too close to the cutoff to decide from the inexact distance
+                    if abs(want) < spec["cutoff"]:
+                        want = 0.0
+                    if abs(M[i][j] - want) > 1e-5 * abs(want):
+                        ctx.violation(f"SequenceData #{k} of {len(sds)} (noise model `{tc['model']}`): entry ({i},{j}) of the "
+                                      f"interaction matrix is {M[i][j]!r}; C6/r^6 for the positions / missing atoms of ITS OWN "
+                                      f"noise trajectory is {want!r}", dict(meta, finding_key=STALE, trajectory=k))
+                        return False
+    return True
+
+
+def trajectory_stream(ctx, n_cases):
+    import dataclasses
+    from pulser._hamiltonian_data import NoiseTrajectory
+
+    fields = [f.name for f in dataclasses.fields(NoiseTrajectory)]
+    unknown = [f for f in fields if f not in MATRIX_FIELDS]
+    ctx.obligation("harness:every NoiseTrajectory field is classified (enters the interaction matrix or not)", not unknown,
+                   f"unclassified NoiseTrajectory fields: {unknown}", kind="harness")
+    models = list(TRAJ_MODELS)
+    cases = [c for c in corpus_cases() if c.get("kind") == "trajectories"]
+    for i in range(n_cases):
+        tc = gen_traj_case(ctx.rng, models[i % len(models)])
+        if i < len(models):      # one case per model in which the per-trajectory matrices certainly matter
+            tc["spec"]["custom"], tc["n_traj"] = False, 4
+        cases.append(tc)
+    stats, ok, detail = {}, True, ""
+    for tc in cases:
+        try:
+            check_trajectories(ctx, tc, stats)
+            ctx.count_case({"trajectories": tc}, tc["n_traj"] >= 2)
+        except Exception:  # noqa: BLE001
+            import traceback
+            ok, detail = False, f"case={tc}\n{traceback.format_exc()}"
+    ctx.obligation("correspondence:every SequenceData of multi-trajectory noise models vs its own NoiseTrajectory "
+                   "(interaction matrix, bad atoms) ran", ok, detail, kind="correspondence")
+    # fail closed: the models meant to vary the matrix did so (a stale matrix would have been visible)
+    weak = [m for m in ("register", "register+bad_atoms", "register+doppler+amplitude")
+            if stats.get(m, {}).get("cases_with_distinct_matrices", 0) == 0]
+    ctx.obligation("harness:register noise models produced trajectories with different interaction matrices",
+                   not weak, f"no case with distinct per-trajectory matrices for: {weak}; stats {stats}", kind="harness")
+    ctx.extra["trajectory_stream"] = stats
+
 
 def corpus_cases():
     p = common.VERIF / "corpus" / "C23.json"
@@ -531,12 +730,30 @@ def corpus_cases():
 
 def check_bulk_case(ctx, case, r):
     """property oracle on the stand-in route (integer data): the matrix at each time obeys the spec"""
-    src = case["user"] if case["user"] is not None else case["traj"][0]
-    for t, M in zip(case["ts"], r["mats"]):
-        bad = spec_oracle(M, src, case["cutoff"], set(case["targets"]), t, case["slm_end"])
-        if bad:
-            ctx.violation("get_sequences/_InteractionMatrixCallable: " + bad,
-                          {"case": case, "finding_key": "matrix-spec", "kind": "bulk"})
+    trajs, owner = case_trajectories(case)
+    if len(r["all_mats"]) != len(owner):
+        ctx.violation(f"get_sequences yields {len(r['all_mats'])} SequenceData for trajectories with reps "
+                      f"{[x[1] for x in trajs]}", {"case": case, "finding_key": "trajectory-count", "kind": "bulk"})
+        return
+    # EVERY yielded SequenceData: the matrix is the prescription applied to the matrix of ITS OWN trajectory
+    for k, (own, mats) in enumerate(zip(owner, r["all_mats"])):
+        src = case["user"] if case["user"] is not None else trajs[own][0][0]
+        for t, M in zip(case["ts"], mats):
+            bad = spec_oracle(M, src, case["cutoff"], set(case["targets"]), t, case["slm_end"])
+            if bad:
+                other = [j for j in range(len(trajs)) if j != own and case["user"] is None and spec_oracle(
+                    M, trajs[j][0][0], case["cutoff"], set(case["targets"]), t, case["slm_end"]) is None]
+                if other:
+                    ctx.violation(f"get_sequences: SequenceData #{k} (noise trajectory {own}) carries the interaction matrix "
+                                  f"of trajectory {other[0]}, not its own: " + bad,
+                                  {"case": case, "finding_key": STALE, "kind": "bulk"})
+                else:
+                    ctx.violation("get_sequences/_InteractionMatrixCallable: " + bad,
+                                  {"case": case, "finding_key": "matrix-spec", "kind": "bulk"})
+                return
+        if r["bad_atoms"][k] != [bool(b) for b in trajs[own][2]]:
+            ctx.violation(f"get_sequences: SequenceData #{k} has bad_atoms {r['bad_atoms'][k]}, its trajectory {own} has "
+                          f"{trajs[own][2]}", {"case": case, "finding_key": STALE, "kind": "bulk"})
             return
     if not r["unmutated"]:
         ctx.violation("get_sequences mutated the user / trajectory matrix",
@@ -567,19 +784,20 @@ def run(ctx):
         outs = ev.run()
         hist = {}
         for c, r, o in zip(cases, impl, outs):
-            model = []
-            for v in parse(o):
-                model.append(None if v is None else [list(row) for row in v[1]])
-            if model != r["mats"] and ok:
-                ok, detail = False, f"case={json.dumps(c)} real={r['mats']} model={model}"
-                ctx.extra["first_disagreement"] = {"case": c, "real": r["mats"], "model": model}
+            model = []       # [query time][yielded item]
+            for per_t in parse(o):
+                model.append([None if v is None else [list(row) for row in v[1]] for v in per_t])
+            real = [[m[i] for m in r["all_mats"]] for i in range(len(c["ts"]))]
+            if model != real and ok:
+                ok, detail = False, f"case={json.dumps(c)} real={real} model={model}"
+                ctx.extra["first_disagreement"] = {"case": c, "real": real, "model": model}
             check_bulk_case(ctx, c, r)
             nontrivial = c["n"] >= 2 and (c["cutoff"] > 0 or bool(c["targets"]))
             ctx.count_case({k: c[k] for k in ("n", "cutoff", "traj_kind", "targets", "slm_end", "ts", "shift", "kind")} |
-                           {"user": c["user"] is not None}, nontrivial)
+                           {"user": c["user"] is not None, "trajectories": [x[1] for x in case_trajectories(c)[0]]}, nontrivial)
             key = f"{c['kind']}/{c['traj_kind']}/{'user' if c['user'] is not None else 'register'}/" \
                   f"masked{min(len(c['targets']), 3)}{'+' if len(c['targets']) > 3 else ''}/" \
-                  f"{'slm0' if c['slm_end'] == 0 else 'slm>0'}"
+                  f"{'slm0' if c['slm_end'] == 0 else 'slm>0'}/{'1traj' if not c.get('more') else 'multi-traj'}"
             hist[key] = hist.get(key, 0) + 1
         ctx.extra["input_distribution"] = dict(sorted(hist.items()))
     except Exception:  # noqa: BLE001  any failure of this stage is a broken tie; the next stages still run
@@ -603,6 +821,9 @@ def run(ctx):
             init_ok, init_detail = False, f"spec={s}\n{traceback.format_exc()}"
     ctx.obligation("correspondence:PulserData.__init__ (slm_end_time, custom matrix, cutoff) on real sequences",
                    init_ok, init_detail, kind="correspondence")
+
+    # every noise trajectory of real noise models (register noise, SPAM, mixtures, controls)
+    trajectory_stream(ctx, ctx.n(15, 250))
 
     # backend query times
     bspecs = [gen_seq_spec(rng, small=True) for _ in range(ctx.n(2, 12))]
@@ -642,7 +863,11 @@ def run(ctx):
                 "{0, inside, T/2, T, >T}, query times on both sides of and exactly at slm_end; real pulser sequences "
                 "(Rydberg and XY, SLM mask, first global pulse at ti = 0 and ti > 0 (delay / local-channel pulse first), custom "
                 "matrix, cutoff; query times below ti, inside [ti, tf), after tf, at every target time and step midpoint) through "
-                "PulserData.__init__; an emu-mps XY run with the excitation on the masked atom; both backends run with a "
+                "PulserData.__init__; several scripted noise trajectories per stand-in case (own matrix each, repetitions, equal or "
+                "different bad atoms) vs Model.sequences_at; real multi-trajectory noise models (register noise, SPAM, both, "
+                "register+doppler+amplitude, amplitude+detuning; Rydberg and XY, SLM mask, cutoff, n_trajectories 2..6): every "
+                "yielded SequenceData's matrix vs the matrix and (C6/r^6, 1e-5) the noisy positions / missing atoms of ITS OWN "
+                "NoiseTrajectory (key trajectory-interaction-stale); an emu-mps XY run with the excitation on the masked atom; both backends run with a "
                 "recording callable. Non-trivial = N>=2 and (cutoff>0 or a masked atom)")
     ctx.trusted_base += ["hand model Model/Interaction.v (validated by the exact correspondence on every run)",
                          "comparisons and zeroing are exact in binary64: integer/dyadic data make the float pipeline equal "
@@ -664,6 +889,8 @@ def replay(ctx, path):
         r = impl_run(c)
         print("replay: matrices", r["mats"])
         check_bulk_case(ctx, c, r)
+    elif rp.get("kind") == "trajectories":
+        print("replay: trajectories ok =", check_trajectories(ctx, rp["case"]))
     elif rp.get("kind") == "pulserdata":
         run_pulserdata(ctx, rp["spec"])
     elif rp.get("kind") == "backend":
@@ -682,9 +909,14 @@ META = {
              "entrywise mask spec of the matrix returned at time t (0 iff t < slm_end and a masked atom is involved, else "
              "the cut-off source entry), symmetry and zero diagonal preserved, user matrix used iff given (first packed "
              "matrix otherwise), the callable switches exactly at slm_end, and the query time of every step lies inside "
-             "the step on both backends (emu-mps: midpoint for step 0, step start afterwards; emu-sv: step start). "
+             "the step on both backends (emu-mps: midpoint for step 0, step start afterwards; emu-sv: step start); over any "
+             "list of noise trajectories with repetitions, the k-th yielded SequenceData answers with the pipeline applied to "
+             "the matrix of its own trajectory (C23_every_trajectory_own_matrix). "
              "Validated only: that the model is the code (exact correspondence, AST pin), that inputs are not mutated, "
-             "slm_end_time and the custom matrix through the real __init__, the recorded query times."),
+             "slm_end_time and the custom matrix through the real __init__, the recorded query times; for one noise model per "
+             "NoiseTrajectory field of pulser that enters the interaction matrix (register positions, bad atoms), mixtures and "
+             "controls, that every yielded SequenceData's matrix is the prescription applied to THAT trajectory's register "
+             "(bit for bit vs the trajectory's matrix, 1e-5 vs C6/r^6 of its noisy positions; key trajectory-interaction-stale)."),
     "note": ("Trusted: Coq kernel+VM, the hand model, exactness of float comparisons/zeroing on dyadic data, pulser's SLM "
              "bookkeeping."),
 }
